@@ -30,7 +30,14 @@ class Fresh:
 
     def str(self):
         self.n += 1
-        return self._rec(f"s{self.n}")
+        n = self.n
+        if n % 11 == 0:
+            # a lone surrogate (what os.fsdecode() returns for a non-UTF-8 file name): a legal Python str that the JSON
+            # encoder writes as an escape; it cannot be encoded as UTF-8 text
+            return self._rec(f"s{n}\udc80x")
+        if n % 11 == 5:
+            return self._rec(f"s{n}\u00e9\u4e2d\U0001f600\n\"\\\u0000")   # accents, CJK, astral plane, escapes, NUL
+        return self._rec(f"s{n}")
 
     def float(self):
         self.n += 1
